@@ -155,7 +155,7 @@ func init() {
 		Title:    "'+' reaches exactly the later versions of the same family; table well-formed",
 		Explorer: "E1 exhaustive family x version-pair x spelling enumeration vs R-ver (natural version order) + complete table audit",
 		Rule: "for every family of the built table: every ordered pair of listed versions of that family by R-ver (including ids the table forgot) in spellings {plain,-only,+,-or-later}: Satisfies both ways vs natural order; " +
-			"for every family every ordered pair of '+' entries (x+, z+) as a two-entry allowed list (also with an unrelated entry between them) x every member y; for every table id a and every listed id b that is not a version of a's family: no match through '+' in either role; plus a complete audit of the table (listedness, uniqueness, ascending order, one version per step, completeness); " +
+			"for every family every ordered pair of '+' entries (x+, z+) as a two-entry allowed list (also with an unrelated entry between them) x every member y; for every table id a and every listed id b that is not a version of a's family: no match through '+' in either role; for every listed id outside every family: its name neighbours, two unrelated ids and the first id of every family with '+' on either and on both sides (no match); plus a complete audit of the table (listedness, uniqueness, ascending order, one version per step, completeness); " +
 			"state = (a-spelling, b-spelling) pair, 2 transitions each; non-trivial = pairs inside one family whose versions differ",
 		Assumptions: []string{
 			"R-ver (rterm.go): family base = longest common prefix cut at '-', version = remainder after -only/-or-later, compared run-wise; shapes not of the form N(.N)*[a-z]? and not present in the family are impure and only checked for listedness/uniqueness",
@@ -441,4 +441,54 @@ func c11Run(c *Ctx) {
 			}
 		}
 	}
+	// ids outside every family: '+' must not make them match anything but themselves - their neighbours
+	// by name, two unrelated ids, and the first id of every family, with '+' on either and on both sides
+	var firsts []string
+	for _, f := range fams {
+		if !f.Shadowed && len(f.Steps) > 0 && len(f.Steps[0]) > 0 {
+			firsts = append(firsts, f.Steps[0][0])
+		}
+	}
+	nout := 0
+	for _, a := range all {
+		if _, ok := pos[NormTerm(a).ID]; ok || strings.HasSuffix(a, "+") || !NormTerm(a+"+").Valid {
+			continue
+		}
+		nout++
+		idx++
+		if !c.Mine(idx) {
+			continue
+		}
+		partners := append(append([]string{}, idNeighbours(a)...), "MIT", "Zlib")
+		partners = append(partners, firsts...)
+		for _, b := range partners {
+			if c.Expired() {
+				return
+			}
+			nb := NormTerm(b)
+			if !nb.Valid || nb.ID == NormTerm(a).ID || !NormTerm(b+"+").Valid {
+				continue
+			}
+			if p, ok := pos[nb.ID]; ok && p.Count > 1 {
+				continue
+			}
+			for _, pr := range [][2]string{{a + "+", b + "+"}, {a + "+", b}, {a, b + "+"}} {
+				msg, skip := c11Reach(pr[0], pr[1], false)
+				c.Inc("states")
+				c.Add("transitions", 2)
+				c.Inc("evaluations")
+				if skip {
+					c.Inc("skipped_error_or_panic")
+					continue
+				}
+				c.Add("traces", 2)
+				c.Outcome("outside-every-family")
+				if msg != "" {
+					c.Report(Violation{Kind: "c11.case", Class: "outside-every-family", Key: "cross:" + pr[0] + "|" + pr[1], Msg: msg, Size: len(pr[0]) + len(pr[1]),
+						Case: mustJSON(c11Case{Kind: "cross", A: pr[0], B: pr[1], Want: false, Family: -1})})
+				}
+			}
+		}
+	}
+	c.Bound("outside_every_family", map[string]any{"ids": nout, "partners": "name neighbours, MIT, Zlib, first id of every family", "forms": "a+ / b+, a+ / b, a / b+"})
 }
